@@ -246,6 +246,39 @@ pub fn run(thorough: bool, seed: u64, driver: &str, rep: &mut Report) {
             }
         }
     }
+    // ---- volume: an event that needs a rare run of draws (say one step in a million) only shows in millions of steps.  Yule and
+    // ETE3-like trees of 48-80 tips, cheap structural oracles only (2n-1 nodes, n leaves, binary, rooted), all cores ----
+    {
+        let per_job = if thorough { 40_000 } else { 5_000 };
+        let jobs: Vec<u64> = (0..32).map(|_| rng.next()).collect();
+        parallel(
+            jobs,
+            n_workers(),
+            "C17",
+            |seed, rep| {
+                let mut r = Rng::new(seed);
+                for k in 0..per_job {
+                    let n = r.range(48, 80);
+                    let shape = if k % 4 == 3 { "ete3" } else { "yule" };
+                    let s = r.next() % 1_000_000_007;
+                    let brlens = k % 16 == 0;
+                    rep.count("volume_requests");
+                    match gen(shape, n, brlens, Distr::Exponential, s) {
+                        Err(e) => rep.oracle(if e == "panic" { "no-panic" } else { "refused" }, &format!("{shape}:volume"), &format!("gen\t{shape}\t{n}\t{}\texponential\t{s}", brlens as u8), &e),
+                        Ok(t) => {
+                            let ok = t.size() == 2 * n - 1 && t.n_leaves() == n && t.is_binary().unwrap_or(false) && t.is_rooted().unwrap_or(false);
+                            if !ok {
+                                let slots = slots_of(&t);
+                                let sig = if slots.len() != 2 * n - 1 { "not-2n-1-nodes" } else if t.n_leaves() != n { "not-n-leaves" } else { "not-binary" };
+                                rep.oracle(if sig == "not-binary" { "shape" } else { "size" }, sig, &format!("gen\t{shape}\t{n}\t{}\texponential\t{s}", brlens as u8), &kids_text(&slots));
+                            }
+                        }
+                    }
+                }
+            },
+            rep,
+        );
+    }
     match run_driver(driver, &reqs) {
         Err(e) => rep.mismatch("c17.generators", "driver-failed", "", "", &e),
         Ok(ans) => {
